@@ -28,6 +28,19 @@ where
     }
   }
 
+  // a handle that can only emit into this subject: it shares the observers
+  // but not the subscribe/unsubscribe hooks (a hook that captures the subject
+  // it is installed on would keep the subject, and all it refers to, alive
+  // forever)
+  pub(crate) fn emitter(&self) -> Subject<'a, Item> {
+    Subject {
+      observers: Arc::clone(&self.observers),
+      serial: Arc::clone(&self.serial),
+      on_subscribe: Arc::new(RwLock::new(None)),
+      on_unsubscribe: Arc::new(RwLock::new(None)),
+    }
+  }
+
   fn fetch_observers(&self) -> Vec<Observer<'a, Item>> {
     let binding = self.observers.read().unwrap();
     let x = binding.iter().map(|x| x.1.clone());
